@@ -410,3 +410,34 @@ def well_scoped(body, nown=0, ninh=0, in_with=0):
         return None
 
     return go(body, nown) is not None
+
+
+# ---------------------------------------------------------------------------------------------------
+# structured families (C03 / C04)
+# ---------------------------------------------------------------------------------------------------
+
+def balanced_tree(depth, fanout, kind=0):
+    """every leaf task awaits one item; inner tasks yield all their children in one list: ONE flush whatever the size"""
+    if depth == 0:
+        return ["item", kind, depth, "ok", ["yld", ["f", ["own", 0]], ["ret", 1], ["reraise"]]]
+    body = ["yld", ["lst"] + [["f", ["own", i]] for i in range(fanout)], ["ret", 2], ["reraise"]]
+    for _ in range(fanout):
+        body = ["spawn", balanced_tree(depth - 1, fanout, kind), [], body]
+    return body
+
+
+def dependent_chain(n, kind=0):
+    """n sequentially dependent requests: await an item, then a child that does the same: n flushes"""
+    if n <= 1:
+        return ["item", kind, 1, "ok", ["yld", ["f", ["own", 0]], ["ret", 1], ["reraise"]]]
+    return ["item", kind, n % 10, "ok", ["yld", ["f", ["own", 0]],
+            ["spawn", dependent_chain(n - 1, kind), [], ["yld", ["f", ["own", 1]], ["ret", 2], ["reraise"]]], ["reraise"]]]
+
+
+def staggered(widths, kind=0):
+    """siblings whose request chains have different lengths: requests become issuable at different times"""
+    kids = [dependent_chain(w, kind) for w in widths]
+    body = ["yld", ["tup"] + [["f", ["own", i]] for i in range(len(kids))], ["ret", 3], ["reraise"]]
+    for k in reversed(kids):
+        body = ["spawn", k, [], body]
+    return body
